@@ -532,12 +532,36 @@ async fn run_case(case: &Case) -> CaseOut {
 
     // --- a following READ starts a fresh series ---
     if !out.failed() {
+        // a READ of exactly one existing point: the answer is one FIR+FIN fragment holding that point's CURRENT value
+        // and nothing else - in particular nothing left over from the series that has just ended
         let s2 = (case.seq + 3) & 0x0F;
-        rig.send(&Fragment::request(s2, func::READ, ra::h_all(60, 1)));
+        let (spec, rec) = db.values().next().cloned().unwrap();
+        let hdr = RHeader::Range(spec.ty, None, spec.index, spec.index, spec.index > 255);
+        let probe = Case { points: vec![], headers: vec![hdr], sol_tx: case.sol_tx, seq: s2, updates: vec![], confs: vec![], flags_seed: 0 };
+        rig.send(&Fragment::request(s2, func::READ, encode_request(&probe)));
         rig.settle().await;
         let f = rig.take_fragments();
-        if f.len() != 1 || !f[0].fir || f[0].seq != s2 {
-            out.fail(Fail::new("fresh-series", format!("the READ after the series was answered with {} fragments, first {:?}", f.len(), f.first().map(|x| (x.fir, x.seq)))));
+        if f.len() != 1 || !f[0].fir || !f[0].fin || f[0].seq != s2 {
+            out.fail(Fail::new("fresh-series", format!("the READ after the series was answered with {} fragments, first {:?}", f.len(), f.first().map(|x| (x.fir, x.fin, x.seq)))));
+        } else {
+            let objs: Vec<(u8, u32, u8, u8, Vec<u8>)> = f[0]
+                .headers()
+                .unwrap_or_default()
+                .into_iter()
+                .filter_map(|h| static_type(h.g).map(|ty| (ty, h)))
+                .flat_map(|(ty, h)| h.objects.clone().into_iter().map(move |o| (ty, o.index.unwrap_or(0), h.g, h.v, o.data)))
+                .collect();
+            if objs.len() != 1 || objs[0].0 != spec.ty || objs[0].1 != spec.index as u32 {
+                out.fail(
+                    Fail::new(
+                        "fresh-series",
+                        format!("a READ of {} index {} after the series was answered with {} static objects: {:?}", TYPE_NAMES[spec.ty as usize], spec.index, objs.len(), objs.iter().take(6).map(|o| (o.0, o.1)).collect::<Vec<_>>()),
+                    )
+                    .with_sig("C11 fresh-series leftover".to_string()),
+                );
+            } else if let Err(why) = check_object(&spec, &rec, None, objs[0].2, objs[0].3, &objs[0].4) {
+                out.fail(Fail::new("fresh-series", format!("a READ after the series does not report the current value: {why}")));
+            }
         }
     }
     if let Some(f) = rig.task_failure.take() {
